@@ -566,6 +566,11 @@ template <typename T> VouImage<T> decode_varopt_union(const uint8_t* b, size_t n
     if (im.pre_longs != 4) bad("varopt union: non-empty image must have 4 preamble longs");
     im.n = r.u64("n"); im.outer_tau_numer = r.f64("outer tau numerator"); im.outer_tau_denom = r.u64("outer tau denominator");
     if (im.n == 0) bad("varopt union: non-empty image with n = 0");
+    // outer tau = (total weight, count) of the reservoir items of the input with the largest tau: a weight and a count of items seen
+    if (!(im.outer_tau_numer >= 0) || std::isinf(im.outer_tau_numer)) bad("varopt union: outer tau numerator is not a finite non-negative weight");
+    if (im.outer_tau_denom > im.n) bad("varopt union: outer tau denominator (an item count) exceeds n");
+    if ((im.outer_tau_numer == 0) != (im.outer_tau_denom == 0)) bad("varopt union: outer tau numerator and denominator are not zero together");
+    if (im.outer_tau_denom > 0 && im.outer_tau_numer < 2.2250738585072014e-308) bad("varopt union: outer tau numerator is a denormal weight");
     im.gadget = decode_varopt<T>(r.cur(), r.left()); im.has_gadget = true;
     if (im.gadget.k > im.max_k) bad("varopt union: gadget k above max k");
     r.skip(im.gadget.consumed, "gadget");
